@@ -40,7 +40,7 @@ def run_parser(tier, funcs, index, enums, res):
 
 def run_operands(tier, funcs, index, enums, res):
     import c11_operands as c11
-    small = [w for w in c11.PAIR_VOCAB if w in ("-type", "-size", "-inum", "-mtime", "-maxdepth", "-regextype", "-printf", "-newermm", "-newermmx", "--newermm", "f", "q", "", "5", "+5M", "x5k",
+    small = [w for w in c11.PAIR_VOCAB if w in ("-type", "-size", "-inum", "-mtime", "-maxdepth", "-regextype", "-printf", "-newermm", "-newermmx", "--newermm", "f", "q", "", "5", "+5M", "x5k", "-+5",
                                                  "99999999999999999999", "sed", "bogus", "%p\\n", "%", "-print", "!", "(", ")")]
     plans = [(1, c11.PAIR_VOCAB), (2, c11.PAIR_VOCAB), (3, small if tier == "quick" else c11.PAIR_VOCAB)]
     for n, vocab in plans:
@@ -215,18 +215,20 @@ def run_delete(tier, funcs, index, enums, res, text):
 
 def run_files0(tier, funcs, index, enums, res):
     import c18_files0 as f0
-    for n in ([1, 2, 3] if tier == "quick" else [1, 2, 3, 4]):
-        r = f0.explore(n, funcs, index, enums)
+    small4, small5 = ["-files0-from", "F_ab", "F_hole", "(", ")", "-print"], ["-files0-from", "F_ab", "(", ")", "-print"]
+    for n, vocab in [(n, f0.VOCAB) for n in ([1, 2, 3] if tier == "quick" else [1, 2, 3, 4])] + ([(4, small4)] if tier == "quick" else []) + [(5, small5)]:
+        r = f0.explore(n, funcs, index, enums, vocab=vocab)
         res["functions_executed"].update(r.pop("functions_executed"))
         for v in r.pop("violations"):
             res["violations"].append({"key": "files0 | " + v["what"].split("[")[0][:50], "summary": "%s: %s" % (" ".join(v["tokens"] or []), v["what"]), "replayer": "files0_cli",
                                       "tokens": v["tokens"], "what": v["what"]})
         for k, c in r.pop("unsupported").items():
             res["unsupported"][k] = res["unsupported"].get(k, 0) + c
-        r["bound"] = "-files0-from: %d tokens over %d words" % (n, len(f0.VOCAB))
+        r["bound"] = "-files0-from: %d tokens over %d words" % (n, len(vocab))
         res["runs"].append(r)
     res["target"] += "; -files0-from: do_find + parse_args + the expression parser + parse_files0_args with File::open / read_to_end as a model over six NUL-separated name lists and a missing file"
-    res["bounds"] += ("; -files0-from: every command line of 1..%d tokens over %r; file contents %r" % (3 if tier == "quick" else 4, f0.VOCAB, {k: v.decode() for k, v in f0.FILES.items()}))
+    res["bounds"] += ("; -files0-from: every command line of 1..%d tokens over %r%s and of 5 tokens over %r (the option inside parentheses: '( -files0-from F ) -print'); file contents %r" % (
+        3 if tier == "quick" else 4, f0.VOCAB, (", of 4 tokens over %r" % small4) if tier == "quick" else "", small5, {k: v.decode() for k, v in f0.FILES.items()}))
 
 
 def run_exec(prop, tier, funcs, index, enums, res):
@@ -251,10 +253,12 @@ def run_exec(prop, tier, funcs, index, enums, res):
                          [t[0] for t in c08_exec.TREE], "-quit variant" if prop == "C08" else "two argument templates from %s" % c08_exec.TEMPLATES))
 
 
-def run_readers(tier, funcs, index, enums, res):
+def run_readers(tier, funcs, index, enums, res, only_bytes=False):
     import c05_readers as r5
-    res["target"] = "WhitespaceDelimitedArgumentReader::next and ByteDelimitedArgumentReader::next until end of input; symbolic input bytes, symbolic read() chunking, symbolic delimiter"
-    plans = [("ws", n, r5.ALPHA_FULL) for n in (1, 2, 3, 4)] + [("bytes", n, r5.ALPHA_FULL) for n in (1, 2, 3)]
+    if not only_bytes:
+        res["target"] = "WhitespaceDelimitedArgumentReader::next and ByteDelimitedArgumentReader::next until end of input; symbolic input bytes, symbolic read() chunking, symbolic delimiter"
+    a12 = [a for a in r5.ALPHA_FULL if a != 0xC3]        # 4 bytes: without the lead byte 0xC3 (it only matters where bytes are converted; keeps the run at its old size)
+    plans = ([] if only_bytes else [("ws", n, r5.ALPHA_FULL if n < 4 else a12) for n in (1, 2, 3, 4)]) + [("bytes", n, r5.ALPHA_FULL) for n in (1, 2, 3)]
     if tier == "thorough":
         plans += [("ws", 5, r5.ALPHA_SMALL), ("bytes", 4, r5.ALPHA_SMALL), ("bytes", 5, r5.ALPHA_SMALL)]
     for kind, n, alpha in plans:
@@ -269,7 +273,12 @@ def run_readers(tier, funcs, index, enums, res):
         r["bound"] = "%s reader, %d bytes over %d letters, %d chunkings" % (kind, n, len(alpha), len(r["chunkings"]))
         r.pop("chunkings")
         res["runs"].append(r)
-    res["bounds"] = ("whitespace reader: every input of 1..4 bytes over {a, blank, newline, tab, ', \", \\, 0xA0, VT, 0x85, FF, CR} under every way of cutting it into read() results"
+    if only_bytes:
+        res["target"] += ("; ByteDelimitedArgumentReader::next on its own until end of input, bytes beyond ASCII included (0xC3 0xA0 = one two-byte character, 0xA0 / 0x85 / 0xC3 alone not UTF-8), "
+                          "every way of cutting the stream into read() / fill_buf() results; String::from_utf8_lossy is std's contract (invalid -> U+FFFD), the OsString byte conversions keep bytes")
+        res["bounds"] += "; byte reader: every input of 1..3 bytes and every delimiter over %r: split only at the delimiter, every other byte unchanged" % ["%#x" % a for a in r5.ALPHA_FULL]
+        return
+    res["bounds"] = ("whitespace reader: every input of 1..4 bytes over {a, blank, newline, tab, ', \", \\, 0xA0, VT, 0x85, FF, CR, 0xC3} under every way of cutting it into read() results"
                      "%s; byte reader: every input of 1..3 bytes and every delimiter over the same alphabet%s" % (
                          " and 5 bytes over {a, blank, newline, ', \\}" if tier == "thorough" else "", ", 4..5 bytes over 5 letters" if tier == "thorough" else ""))
 
@@ -439,6 +448,29 @@ def main():
             run_operands(tier, funcs, index, enums, res)
     elif prop == "C06":
         run_wiring(tier, funcs, index, enums, res)
+        orders = res.pop("limiter_orders", {})
+        # the system limiter inside the real chain: the batching loop with the chain do_xargs installs, the system budget symbolic (standing where -s stands in C04's reference)
+        import c04_batching
+        for cfg in ({"n": True, "L": False, "s": True, "x": False, "r": False}, {"n": False, "L": True, "s": True, "x": False, "r": False}, {"n": False, "L": False, "s": True, "x": False, "r": False},
+                    {"n": True, "L": False, "s": True, "x": True, "r": False}):
+            want = ",".join(sorted([k for k in ("n", "L") if cfg[k]] + ["sys"]))
+            for order in sorted(orders.get(want, []), key=str):
+                for nargs in (1, 2, 3):
+                    r = c04_batching.explore(nargs, cfg, funcs, index, enums, order=order, sys_as_s=True)
+                    res["functions_executed"].update(r.pop("functions_executed"))
+                    for v in r.pop("violations"):
+                        res["violations"].append({"key": "system budget in the chain | %s" % v["what"][:60], "summary": "%s; chain %s; batches %s; witness %s" % (v["what"], list(order), v.get("batches"), v.get("witness")),
+                                                  "replayer": "wiring_cli", "what": v["what"]})
+                    for p in r.pop("panics"):
+                        res["violations"].append({"key": "panic " + p["panic"][:60], "summary": "panic: %s" % p["panic"], "replayer": "wiring_cli", "what": p["panic"]})
+                    for k, c in r.pop("unsupported").items():
+                        res["unsupported"][k] = res["unsupported"].get(k, 0) + c
+                    r["bound"] = "system budget in the chain %s, %d arguments" % (list(order), nargs)
+                    r["inputs_covered"] = r.pop("obligations")
+                    res["runs"].append(r)
+        res["target"] += ("; CommandBuilderOptions::new + process_input with the limiter chain in do_xargs' order, the system limiter carrying a symbolic budget: command, initial arguments and every appended "
+                          "argument (+1 each) of every invocation stay within it")
+        res["bounds"] += "; system budget in the chain: 1..3 arguments of symbolic length, chains (n, sys), (L, sys), (sys), with and without -x; budget symbolic in 0..180"
     elif prop in ("C04", "C19"):
         orders = None
         if prop == "C04":
@@ -497,6 +529,21 @@ def main():
         run_wiring(tier, funcs, index, enums, res)
     elif prop == "C12":
         run_glob(tier, funcs, index, enums, res)
+        import c12_subject
+        r = c12_subject.explore(funcs, index, enums)
+        res["functions_executed"].update(r.pop("functions_executed"))
+        for v in r.pop("violations"):
+            res["violations"].append({"key": "subject | %s" % v["primary"], "summary": v["what"] + " (compiled by onig: %s)" % v["compiled"], "replayer": "subject_cli",
+                                      "primary": v["primary"], "glob": v["glob"], "entry": v["entry"], "what": v["what"]})
+        for k, c in r.pop("unsupported").items():
+            res["unsupported"][k] = res["unsupported"].get(k, 0) + c
+        r["bound"] = "%d primaries x %d globs x %d entries" % (len(c12_subject.PRIMS), len(c12_subject.GLOBS), len(c12_subject.ENTRIES))
+        r["inputs_covered"] = r.pop("checks")
+        res["runs"].append(r)
+        res["target"] += ("; subject selection and case folding: the parser's -name/-iname/-path/-ipath/-wholename/-iwholename/-lname/-ilname arms, NameMatcher / PathMatcher / LinkNameMatcher::matches, "
+                          "WalkEntry::{new,from_walkdir,file_name,path}, Pattern::{new,matches}, glob_to_regex, parse_bre from MIR; the onig crate is the model of onig_model.py (POSIX basic syntax)")
+        res["bounds"] += ("; subject selection: primaries %r x globs %r x entries (path, explicit / walkdir, link target) %r: the pattern is matched against the last component / the whole path / "
+                          "the link target, case folded for the -i forms" % (c12_subject.PRIMS, c12_subject.GLOBS, c12_subject.ENTRIES))
     elif prop == "C16":
         run_printf(tier, funcs, index, enums, res)
         run_types(tier, funcs, index, enums, res)
@@ -531,6 +578,7 @@ def main():
         res["bounds"] += "; -perm: operands %r, each read as chmod would apply it to 0 with umask 0, then matched against the file modes %s" % (c13_perm.OPERANDS, [oct(x) for x in c13_perm.FILE_MODES])
     elif prop == "C07":
         run_print0(tier, funcs, index, enums, res)
+        run_readers(tier, funcs, index, enums, res, only_bytes=True)
     elif prop == "C20":
         run_replace(tier, funcs, index, enums, res, text)
     elif prop == "C17":
